@@ -22,6 +22,10 @@ T1(S) == {<<a>> : a \in S}
 XAC == {"D", "dirtyD", "U", "self", "max"}
 Big == {"2^64-1"}
 Z == {"0"}
+\* the code shapes: short code of every length modulo 8 ending in every PUSH class cut off at every edge; long code at the
+\* two ends of the 8-byte group with nothing / everything of the data there
+Tails == {t \in TOC \X TMC \X PRC \X LNC : /\ TailOK(t) /\ t[1] # "none"
+                                         /\ (t[4] = "long" => t[2] \in {"0", "P"} /\ t[3] \in {"0", "7"})}
 TuplesOf(o) ==
   CASE o \in Copy3 -> VC \X VC \X VC
     [] o = "EXTCODECOPY" -> XAC \X VC \X VC \X VC
@@ -40,8 +44,10 @@ TuplesOf(o) ==
     [] o \in Call6 -> (Big \X {"R", "pre4"} \X VC \X VC \X Z \X Z)
                  \cup (Big \X {"R", "pre4"} \X Z \X {"32"} \X VC \X VC)
                  \cup (VC \X AC \X Z \X {"32"} \X Z \X {"32"})
-    [] o = "JUMP" -> T1(JC)
-    [] o = "JUMPI" -> JC \X CV
+    \* jumps: every destination class in the plain program, the destinations that speak about the end of the code in every
+    \* code shape (taken jumps only: a jump that is not taken does not look at the code)
+    [] o = "JUMP" -> {<<j>> \o PlainTail : j \in JC \ {"taildata"}} \cup {<<j>> \o t : j \in JCT, t \in Tails}
+    [] o = "JUMPI" -> {<<j, c>> \o PlainTail : j \in JC \ {"taildata"}, c \in CV} \cup {<<j, "1">> \o t : j \in JCT, t \in Tails}
     [] o \in {"BALANCE", "EXTCODESIZE", "SELFDESTRUCT"} -> T1(AC)
     [] o \in Arith2 -> VC \X VC
     [] o \in Arith3 -> VC \X VC \X VC
@@ -55,7 +61,8 @@ CtxOf(o) == IF o \in ArithOps THEN {<<FALSE, FALSE, "ample">>, <<TRUE, TRUE, "ti
 \* the seeded sample
 Names == <<"0", "1", "31", "32", "33", "N-1", "N", "N+1", "2^32-1", "2^32", "2^63", "2^64-1", "2^64", "2^64+1", "2^128", "2^255", "2^256-1",
            "R", "D", "dirtyD", "dirtyR", "U", "self", "fresh", "zero", "pre1", "pre4", "pre5", "pre9", "max",
-           "dest", "dest+1", "pushdata", "2^32+dest", "2^63+dest", "2^64+dest", "2^255+dest">>
+           "dest", "dest+1", "pushdata", "2^32+dest", "2^63+dest", "2^64+dest", "2^255+dest",
+           "taildata", "none", "P-1", "P", "short", "long", "2", "3", "4", "5", "6", "7", "8", "9", "15", "16", "17", "23", "24", "25">>
 Idx == [c \in {Names[i] : i \in 1..Len(Names)} |-> CHOOSE i \in 1..Len(Names) : Names[i] = c]
 Hash(c) == LET h[i \in 0..Len(c)] == IF i = 0 THEN 7 ELSE (h[i - 1] * 31 + Idx[c[i]]) % 65521 IN h[Len(c)]
 Sampled(o, c, r, s, g) ==
@@ -71,6 +78,8 @@ Complete ==
   /\ stage = "head" /\ stage' = "tuple"
   /\ cls' \in {t \in TuplesOf(op) : t[1] = cls[1]}
   /\ WellFormed(op, cls', Env(op, cls', rd))
+  \* (the code shapes in two contexts only: the shape does not interact with return data, write protection or gas)
+  /\ (op \in {"JUMP", "JUMPI"} /\ TailOf(op, cls') # PlainTail) => <<rd, static, gas>> \in {<<FALSE, FALSE, "ample">>, <<TRUE, TRUE, "tiny">>}
   /\ (IF op \in FullOps \/ (op \in FullData /\ cls'[1] = "D" /\ gas = "ample") THEN TRUE ELSE Sampled(op, cls', rd, static, gas))
   /\ UNCHANGED <<op, rd, static, gas>>
 Next == Complete
@@ -115,4 +124,14 @@ ASSUME <<"2^32-1", "1">> \in WrapPairs(2, 40) /\ <<"2^256-1", "1">> \in WrapPair
 ASSUME <<"2^32", "2^32">> \in ProductWrapPairs(64) /\ <<"2^63", "2^63">> \in ProductWrapPairs(64) /\ <<"2^128", "2^128">> \in ProductWrapPairs(256)
        /\ <<"2^255", "2^255">> \in ProductWrapPairs(256) /\ <<"2^63", "32">> \in ProductWrapPairs(64)
 ASSUME Ops \subseteq AllOps /\ FullOps \subseteq Ops /\ FullData \subseteq {"EXTCODECOPY"}
+\* the code shapes contain the PUSH32 whose data is cut off right behind the opcode at every length modulo 8, short and long
+ASSUME \A r \in PRC : <<"32", "0", r, "short">> \in Tails
+ASSUME <<"32", "0", "0", "long">> \in Tails /\ <<"32", "P", "7", "long">> \in Tails /\ <<"1", "0", "0", "short">> \in Tails
+\* a destination in the data of the last PUSH, the last byte and the first byte behind the code are never valid
+Taken == op = "JUMP" \/ (op = "JUMPI" /\ V[2] # Zero)
+TailDestsInvalid == (Tuple /\ op \in {"JUMP", "JUMPI"} /\ Taken /\ cls[1] \in {"taildata", "N-1", "N"}) => Outcome(op, cls, static, gas, E) = "fail"
+\* how the code ends never decides whether a destination in front of it is valid
+WithTail(c, t) == IF op = "JUMP" THEN <<c[1]>> \o t ELSE <<c[1], c[2]>> \o t
+ShapeDoesNotDecide == (Tuple /\ op \in {"JUMP", "JUMPI"} /\ cls[1] # "taildata") =>
+                         Outcome(op, cls, static, gas, E) = Outcome(op, WithTail(cls, PlainTail), static, gas, E)
 ====
